@@ -580,3 +580,27 @@ def uncovered_mask(m, lv, bi, limit):
             sl = tuple(slice(lo[d] - b.lo[d], hi[d] - b.lo[d] + 1) for d in range(m.ndims))
             mask[sl] = False
     return mask
+
+
+def poison_covered(m, seed=0, frac=0.6):
+    """Overwrite coarse cells lying under the next finer level with NaN / +inf / -inf (what a solver
+    that does not average down may leave there). Cells no finer level covers are untouched and at
+    least one cell of every box stays as it was. Returns the number of cells overwritten."""
+    rng = np.random.default_rng(seed)
+    n = 0
+    for lv in range(m.nlevels - 1):
+        for bi in range(len(m.boxes[lv])):
+            cov = ~uncovered_mask(m, lv, bi, lv + 1)
+            if not cov.any():
+                continue
+            pick = cov & (rng.random(cov.shape) < frac)
+            if pick.all():
+                pick[tuple(0 for _ in pick.shape)] = False
+            k = int(pick.sum())
+            if not k:
+                continue
+            a = m.data[lv][bi] = np.array(m.data[lv][bi], dtype=np.float64, order="F", copy=True)
+            vals = rng.choice(np.array([np.nan, np.inf, -np.inf]), size=(k, a.shape[-1]))
+            a[pick] = vals
+            n += k
+    return n
